@@ -577,6 +577,22 @@ func (r *runner) observe(n *core.Node, res *core.BlockResult) map[string]interfa
 		add("sic", ic.SourceInterchainCounter)
 		add("src", ic.SourceReceiptCounter)
 	}
+	// the hub's own broker: requests handed to services of the hub itself, per (source, destination)
+	if rc := n.Query(constant.InterBrokerContractAddr.Address(), "GetInMeta"); rc != nil && rc.Status == pb.Receipt_SUCCESS {
+		in := map[string]uint64{}
+		if json.Unmarshal(rc.Ret, &in) == nil {
+			ks := []string{}
+			for k := range in {
+				ks = append(ks, k)
+			}
+			sort.Strings(ks)
+			for _, k := range ks {
+				if i := strings.Index(k, "-"); i > 0 {
+					ctr = append(ctr, m{"s": k[:i], "d": k[i+1:], "kind": "bin", "n": int(in[k])})
+				}
+			}
+		}
+	}
 	// statuses
 	st := []m{}
 	for _, id := range r.ids {
